@@ -12,7 +12,7 @@ pub const DEF: PropDef = PropDef {
     run,
     replay,
     level: "exploration",
-    rule: "enumeration: handshake strings x DH in {25519 (32-byte keys), P256 (65-byte keys)} x transport mode (stateful / stateless) x variant (plain; an unneeded, different remote key supplied up front; a tampered copy of the carrying message delivered first; a first read of every psk-carrying message that fails for a missing PSK, with and without an extra supplied key; writes that fail for lack of room before every message in the variants with an extra key); get_remote_static observed on both roles after build, after every message and after conversion. Expected value derived from the harness's own pattern table and the peer's private key via the reference DH: pre-shared -> the peer's full public key from build on; transmitted -> absent before (if none supplied), the peer's full public key from the successful read of the carrying message on; identical after conversion; absent when never conveyed and not supplied. Non-trivial = at least one role is given the peer's static key by the pattern; distinct by (name, suite, mode, variant)",
+    rule: "enumeration: handshake strings x DH in {25519 (32-byte keys), P256 (65-byte keys)} x transport mode (stateful / stateless) x variant (plain; an unneeded, different remote key supplied up front; a tampered copy of the carrying message delivered first; a first read of every psk-carrying message that fails for a missing PSK, with and without an extra supplied key; writes that fail for lack of room before every message in the variants with an extra key); get_remote_static observed on both roles after build, after every message, after dangerously_get_raw_split() and after conversion. Expected value derived from the harness's own pattern table and the peer's private key via the reference DH: pre-shared -> the peer's full public key from build on; transmitted -> absent before (if none supplied), the peer's full public key from the successful read of the carrying message on; identical after conversion; absent when never conveyed and not supplied. Non-trivial = at least one role is given the peer's static key by the pattern; distinct by (name, suite, mode, variant)",
     technique: "differential observation against a reference key schedule (pattern table + independent DH), exhaustive over names x DH x roles x observation points",
     assumptions: &["when the caller supplies a remote key the pattern does not need, nothing is asserted for the window before the transmitted key arrives"],
     panic_is_violation: false,
@@ -211,6 +211,15 @@ fn oracle(c: &Case, acc: &mut Acc) -> CaseResult {
         hs_read(r, &msg, 65535).map_err(|x| Fail::setup(format!("{name}: read {idx}: {}", e(&x))))?;
         check(hi.get_remote_static(), true, idx + 1, &format!("after message {idx}"), acc)?;
         check(hr.get_remote_static(), false, idx + 1, &format!("after message {idx}"), acc)?;
+    }
+    // the raw Split() output can be asked for before conversion (upstream feature
+    // risky-raw-split): a query, it must not change what is reported
+    if spec.key_seed % 2 == 0 {
+        let _ = hi.dangerously_get_raw_split();
+        let _ = hr.dangerously_get_raw_split();
+        check(hi.get_remote_static(), true, nm, "after dangerously_get_raw_split()", acc)?;
+        check(hr.get_remote_static(), false, nm, "after dangerously_get_raw_split()", acc)?;
+        acc.label("raw_split_called_before_conversion");
     }
     if c.stateless {
         let ti = hi.into_stateless_transport_mode().map_err(|x| Fail::setup(e(&x)))?;
